@@ -183,10 +183,33 @@ def run(tier):
         with Pool() as pool:
             bres = pool.map("vlib.observe:run_case", [base_cases[k_] for k_ in keys], timeout=180)
             recs = pool.map("vlib.observe:run_case", cases, timeout=300)
+            # the same case again on a provider that has just served a run which failed half-way (after writing to the very tables the
+            # template is about): the answer must be the one the provider gives when fresh
+            FAIL = "insert into db.a (ax) select q from zz.other; create table db.b as select q as bx from zz.other; insert into db.t (tp) select q from zz.other; selec * frm"
+            seq_idx = [i for i, (c, m) in enumerate(zip(cases, meta)) if m[0] == "template" and i % (4 if tier == "quick" else 2) == 0]
+            seq = pool.map("vlib.observe:run_sequence_same_provider",
+                           [[dict(cases[i], sql=FAIL), cases[i]] for i in seq_idx], timeout=400)
         base = {k_: r for k_, (s, r) in zip(keys, bres) if s == "ok"}
     finally:
         shutil.rmtree(scratch, ignore_errors=True)
     by_template = {}
+    run_.need("after_failed_run_compared")
+    for i, (s2, r2) in zip(seq_idx, seq):
+        c = cases[i]
+        b = {"sql": c["sql"], "metadata": c["metadata"], "provider": c["provider"], "template": meta[i][1], "after": "a run on the same provider that failed at its last statement"}
+        s1, r1 = recs[i]
+        if not (run_.pool_status(s2, r2, b) and s1 == "ok"):
+            continue
+        first, again = r2
+        if first["outcome"] == "ok" or r1["outcome"] != "ok" or again["outcome"] != "ok":
+            if r1["outcome"] == "ok" and again["outcome"] != "ok":
+                run_.judge(b, "raises_after_a_failed_run_on_the_same_provider", again["outcome"], kf_id=None)
+            continue
+        run_.observe("after_failed_run_compared")
+        p1 = sorted(map(list, {tuple(p) for p in r1["column_pairs"]}))
+        p2 = sorted(map(list, {tuple(p) for p in again["column_pairs"]}))
+        if p1 != p2 or tview(r1) != tview(again):
+            run_.judge(b, "answer_differs_after_a_failed_run_on_the_same_provider", {"fresh_provider": p1[:10], "after_failed_run": p2[:10]}, kf_id=None)
     for c, (kind, name, exp, hint, known, ov), (s, r) in zip(cases, meta, recs):
         b = {"sql": c["sql"], "metadata": c["metadata"], "provider": c["provider"], "template": name, "known(a,b,t)": known, "overlap": ov}
         if not run_.pool_status(s, r, b):
